@@ -94,7 +94,8 @@ func (b *exampleBuilder) buildExampleForObjectNode(node *internalSchema.ObjectNo
 		buf.Write(ex)
 	}
 	buf.WriteRune('}')
-	return buf.Bytes(), nil
+	// Copy before the deferred Put hands the buffer to somebody else.
+	return append([]byte(nil), buf.Bytes()...), nil
 }
 
 func (b *exampleBuilder) buildObjectKey(k internalSchema.ObjectNodeKey) ([]byte, error) {
@@ -166,7 +167,8 @@ func (b *exampleBuilder) buildExampleForArrayNode(node *internalSchema.ArrayNode
 		buf.Write(ex)
 	}
 	buf.WriteRune(']')
-	return buf.Bytes(), nil
+	// Copy before the deferred Put hands the buffer to somebody else.
+	return append([]byte(nil), buf.Bytes()...), nil
 }
 
 func (b *exampleBuilder) buildExampleForMixedValueNode(node *internalSchema.MixedValueNode) ([]byte, error) {
